@@ -13,6 +13,7 @@ struct w_other {};
 
 struct w_step {};
 struct w_in {};
+struct w_flag {};
 struct w_st : public msm::front::state<>
 {
     template <class Event, class FSM> void on_entry(Event const&, FSM&) {}
@@ -26,7 +27,7 @@ struct w_depth3
 {
     struct Inner_ : public msm::front::state_machine_def<Inner_>
     {
-        struct L1 : w_st {}; struct L2 : w_st {};
+        struct L1 : w_st {}; struct L2 : w_st { typedef mpl::vector<w_flag> flag_list; };
         typedef L1 initial_state;
         template <class Event, class FSM> void on_entry(Event const&, FSM&) {}
         template <class Event, class FSM> void on_exit(Event const&, FSM&) {}
@@ -93,6 +94,9 @@ void w_use_player()
     r.stop(stop());                             // stop(Event) overload
 }
 
+template <class M, class S> auto w_query(M& m, int) -> decltype(m.template is_state_active<S>(), void()) { (void)m.template is_state_active<S>(); }
+template <class M, class S> void w_query(M&, long) {}
+
 template <class D3>
 void w_use_depth3()
 {
@@ -106,7 +110,9 @@ void w_use_depth3()
     m.process_event(w_leave());
     m.process_event(w_enter());
     m.process_event(w_in());
-    m.stop();                                   // exits Playing's substate, Playing, player, then Root3
+    w_query<typename D3::Root3, typename D3::Inner_::L2>(m, 0);     // introspection two levels down (backmp11 only)
+    (void)m.template is_flag_active<w_flag>();
+    m.stop();                                   // exits Inner's substate, Inner, Mid's regions, Mid, then Root3
     typename D3::Root3 c(static_cast<const typename D3::Root3&>(m));
     c = m;
     c.start(w_enter()); c.stop(w_leave());
